@@ -70,7 +70,7 @@ DOC_HOLDER_Y = f'<holdery xmlns="urn:t" {XSI}><b xsi:type="special2"><v>a</v><y>
 class Shared:
     def __init__(self):
         self.ctx = XmlContext()
-        self.gserializer = XmlSerializer(context=self.ctx, config=SerializerConfig(xml_declaration=False, globalns={"FwdInner": FWD_INNER}), writer=XmlEventWriter)
+        self.gserializer = XmlSerializer(context=self.ctx, config=SerializerConfig(xml_declaration=False, globalns={"FwdInner": FWD_INNER, "Optional": __import__("typing").Optional}), writer=XmlEventWriter)
         self.parser = XmlParser(context=self.ctx, handler=XmlEventHandler)
         self.lparser = XmlParser(context=self.ctx, handler=LxmlEventHandler)
         self.serializer = XmlSerializer(context=self.ctx, config=SerializerConfig(xml_declaration=False), writer=XmlEventWriter)
